@@ -131,8 +131,28 @@ def run(prop, tier, seed, workdir, t0, replay):
             "how_to_replay": f"./check {prop} --replay {replay_path}",
         }, open(replay_path, "w"), indent=1)
 
-    write_evidence(prop, tier, seed, stages, failures, undecided, time.time() - t0, P, witness)
-
+    # ---- grading (DESIGN 10): a concrete failing input always decides; without one, only a hard obligation failing in
+    # a unit whose code still has the shape the sidecar was written for is reported; loop invariants alone, or failures
+    # next to helpers the proof has no contract for, stay undecided.
+    downgraded = []
+    if fresh and not (witness and witness.get("found")):
+        keep = []
+        for s, f in fresh:
+            sk = s.details.get("skeleton", {"intact": True})
+            if getattr(f, "strength", "hard") == "hard" and sk.get("intact", True):
+                keep.append((s, f))
+            else:
+                why = "loop invariant only" if getattr(f, "strength", "hard") == "soft" else "code shape changed: " + json.dumps({k: v for k, v in sk.items() if k != "intact" and v})
+                downgraded.append((s, f, why))
+        if not keep:
+            for s, f, why in downgraded:
+                s.undecided.append(f"{f.name} failed ({f.message}) but no failing input was found and the failure is not decisive ({why})")
+                undecided.append((s, s.undecided[-1]))
+            fresh = []
+            if replay_path and os.path.exists(replay_path):
+                os.remove(replay_path)
+                replay_path = None
+    write_evidence(prop, tier, seed, stages, [x for x in failures if (x[0], x[1]) in [(a, b) for a, b in fresh] or x in known], undecided, time.time() - t0, P, witness)
     for s in stages:
         status = "FAILED" if s.failures else ("UNDECIDED" if s.undecided else "ok")
         extra = f" [{s.bounded}]" if s.bounded else ""
@@ -190,8 +210,10 @@ def write_evidence(prop, tier, seed, stages, failures, undecided, wall, P, witne
                                       "allocation never fails"],
         "wall_s": round(wall, 2), "violations": len(failures),
     }
-    os.makedirs(os.path.join(VERIF, "evidence"), exist_ok=True)
-    json.dump(ev, open(os.path.join(VERIF, "evidence", f"{prop}.json"), "w"), indent=1)
+    # evidence/<id>.json describes runs against /repo itself; self-test runs against scratch trees must not overwrite it
+    edir = os.path.join(VERIF, "evidence") if os.path.realpath(REPO) == "/repo" else os.path.join(VERIF, "work", "evidence-scratch")
+    os.makedirs(edir, exist_ok=True)
+    json.dump(ev, open(os.path.join(edir, f"{prop}.json"), "w"), indent=1)
 
 
 if __name__ == "__main__":
